@@ -2055,12 +2055,10 @@ bn_r_shift(bn_p bn, size_t bits) {
 
 	if (NULL == bn || 0 == bn->digits)
 		return;
-#if 0
 	if ((bn->digits * BN_DIGIT_BITS) <= bits) {
 		bn_assign_zero(bn);
 		return;
 	}
-#endif
 	bn_digits_r_shift(bn->num, bn->digits, bits);
 	bn_update_digits__int(bn, bn->digits);
 }
